@@ -197,6 +197,8 @@ pub struct Agg {
     pub det_checked: u64,
     pub det_mismatch: u64,
     pub sig_counts: BTreeMap<String, u64>,
+    pub hashes: Vec<(u64, String)>,
+    pub keep_hashes: bool,
 }
 impl Agg {
     fn add(&mut self, idx: u64, params: &Value, r: &CaseResult) {
@@ -212,6 +214,9 @@ impl Agg {
             },
         }
         let b = &r.body;
+        if self.keep_hashes {
+            self.hashes.push((idx, r.trace_hash()));
+        }
         self.steps += b["steps"].as_u64().unwrap_or(0);
         self.vns += b["vns"].as_u64().unwrap_or(0);
         self.threads_max = self.threads_max.max(b["threads"].as_u64().unwrap_or(0));
@@ -258,6 +263,7 @@ impl Agg {
             "distinct_nontrivial": self.distinct_nontrivial.iter().collect::<Vec<_>>(),
             "samples": self.samples, "violations": self.violations, "errors": self.errors,
             "det_checked": self.det_checked, "det_mismatch": self.det_mismatch, "sig_counts": self.sig_counts,
+            "hashes": self.hashes.iter().map(|h| json!([h.0, h.1])).collect::<Vec<_>>(),
         })
     }
     fn merge_json(&mut self, v: &Value) {
@@ -292,6 +298,9 @@ impl Agg {
         for x in v["violations"].as_array().into_iter().flatten() {
             self.violations.push(x.clone());
         }
+        for x in v["hashes"].as_array().into_iter().flatten() {
+            self.hashes.push((x[0].as_u64().unwrap_or(0), x[1].as_str().unwrap_or("").to_string()));
+        }
         for x in v["errors"].as_array().into_iter().flatten() {
             if self.errors.len() < 10 {
                 self.errors.push(x.as_str().unwrap_or("").to_string());
@@ -321,6 +330,7 @@ pub struct CheckOpts {
     pub out: Option<String>,
     pub replay_dir: String,
     pub budget_s: Option<u64>,
+    pub hashes: Option<String>,
 }
 
 /// Run all cases of a scenario for this build's variant. Returns the process exit code.
@@ -338,6 +348,7 @@ pub fn check(sc: &'static dyn Scenario, o: &CheckOpts) -> i32 {
         if pid == 0 {
             let runner = Runner::new(sc);
             let mut agg = Agg::default();
+            agg.keep_hashes = o.hashes.is_some();
             let mut idx = w as u64;
             while idx < total {
                 if let Some(b) = o.budget_s {
@@ -381,6 +392,11 @@ pub fn check(sc: &'static dyn Scenario, o: &CheckOpts) -> i32 {
         }
     }
     let _ = std::fs::remove_dir_all(&dir);
+    if let Some(hp) = &o.hashes {
+        agg.hashes.sort();
+        let txt: String = agg.hashes.iter().map(|h| format!("{} {}\n", h.0, h.1)).collect();
+        std::fs::write(hp, txt).unwrap();
+    }
     let explore_s = t0.elapsed().as_secs_f64();
 
     // ---------------------------------------------------------------- violations
